@@ -464,3 +464,69 @@ M('c05-sse-ctor-rejects-missing-event-name', 'C05', 'R13', SSEV, "        if eve
   "        if not event or not isinstance(event, str):\n")
 M('c05-sse-ctor-rejects-multiline-comment', 'C05', 'R13', SSEV, "        if comment is not None and not isinstance(comment, str):\n            raise TypeError('comment must be a string')\n",
   "        if comment is not None and not isinstance(comment, str):\n            raise TypeError('comment must be a string')\n        if comment is not None and '\\n' in comment:\n            raise ValueError('comment must be a single line')\n")
+
+# ------------------------------------------------ wave 10
+# R6, WSGI _get_body decided per path over (file-like?, server file wrapper?) - also in the early-return spelling
+# of the behaviour-preserving k1-c05-1
+_GET_BODY_TAIL = """            if hasattr(stream, 'read'):
+                if wsgi_file_wrapper is not None:
+                    # TODO(kgriffs): Make block size configurable at the
+                    # global level, pending experimentation to see how
+                    # useful that would be. See also the discussion on
+                    # this GitHub PR:
+                    # https://github.com/falconry/falcon/pull/249#discussion_r11269730
+                    iterable = wsgi_file_wrapper(stream, self._STREAM_BLOCK_SIZE)  # type: ignore[arg-type]
+                else:
+                    iterable = helpers.CloseableStreamIterator(
+                        stream,  # type: ignore[arg-type]
+                        self._STREAM_BLOCK_SIZE,
+                    )
+            else:
+                iterable = stream
+
+            return iterable, None
+"""
+M('c05-wsgi-early-return-filelike-unwrapped', 'C05', 'R6', A, _GET_BODY_TAIL,
+  """            if hasattr(stream, 'read'):
+                return stream, None
+            block_size = self._STREAM_BLOCK_SIZE
+            if wsgi_file_wrapper is not None:
+                return wsgi_file_wrapper(stream, block_size), None
+            return helpers.CloseableStreamIterator(stream, block_size), None
+""")
+M('c05-wsgi-filelike-unwrapped-without-server-wrapper', 'C05', 'R6', A, _GET_BODY_TAIL,
+  """            if hasattr(stream, 'read') and wsgi_file_wrapper is not None:
+                iterable = wsgi_file_wrapper(stream, self._STREAM_BLOCK_SIZE)
+            else:
+                iterable = stream
+
+            return iterable, None
+""")
+M('c05-wsgi-early-return-wrapper-called-when-absent', 'C05', 'R6', A, _GET_BODY_TAIL,
+  """            if not hasattr(stream, 'read'):
+                return stream, None
+            block_size = self._STREAM_BLOCK_SIZE
+            if wsgi_file_wrapper is None:
+                return wsgi_file_wrapper(stream, block_size), None
+            return helpers.CloseableStreamIterator(stream, block_size), None
+""")
+M('c05-wsgi-early-return-plain-iterator', 'C05', 'R6', A, _GET_BODY_TAIL,
+  """            if not hasattr(stream, 'read'):
+                return stream, None
+            block_size = self._STREAM_BLOCK_SIZE
+            if wsgi_file_wrapper is not None:
+                return wsgi_file_wrapper(stream, block_size), None
+            return iter(lambda: stream.read(block_size), b''), None
+""")
+# R14 (= C04 R1, s6-c05-2): the body rendered again in the except arm of the rendering window: a second failure
+# leaves __call__ before start_response
+M('c05-wsgi-render-again-unprotected', 'C05', 'R14', A,
+  """            req_succeeded = False
+
+        resp_status: str = code_to_http_status(resp.status)
+""", """            req_succeeded = False
+
+            body, length = self._get_body(resp, env.get('wsgi.file_wrapper'))
+
+        resp_status: str = code_to_http_status(resp.status)
+""", also=('C03', 'C04', 'C06'))
